@@ -77,6 +77,12 @@ def handle : Handler := fun op args =>
         let C ← Bits.ofBytes c none 1
         Serpent.enc K C)
       pure (md, "-")
+  | "serpent.len.enc", [k, m] => do
+      let k ← parseOperand? k; let m ← parseOperand? m
+      pure (fmtE (fun c => toString c.length) (bind2 k m Serpent.enc), "-")
+  | "serpent.len.dec", [k, m] => do
+      let k ← parseOperand? k; let m ← parseOperand? m
+      pure (fmtE (fun c => toString c.length) (bind2 k m Serpent.dec), "-")
   | "serpent.subkeys", [k] => do
       let k ← parseOperand? k
       let md := fmtE fmtBitsList (do let K ← k; let c ← Serpent.init K; pure c.keys)
